@@ -236,3 +236,184 @@ Section Rhp15.
     destruct h as [[h1 h2] h3]. unfold vscale, vx, vy, vz; cbn. apply vec_eq; ring.
   Qed.
 End Rhp15.
+
+(* ---------- nine entries: the regular prism ---------- *)
+
+Definition params9 (c h r : rvec) : list R :=
+  [vx c; vy c; vz c; vx h; vy h; vz h; vx r; vy r; vz r].
+
+Definition unit_of (h : rvec) : rvec := vscale (1 / norm h) h.
+
+Lemma renorm_unit (h : rvec) : h <> (0, 0, 0) -> renorm RS h = Ok (unit_of h).
+Proof.
+  intros Hh. pose proof (norm_pos h Hh) as Hp. unfold renorm, mag, mag2.
+  change (@scal R RS h h) with (dot h h). cbn [ssqrt seqb RS s0 s1 sdiv].
+  fold (norm h). destruct (Reqb (norm h) 0) eqn:E; [apply Reqb_true in E; lra|reflexivity].
+Qed.
+
+Lemma rotate_perp (r k : rvec) (ang : R) :
+  dot k r = 0 -> rotate RS r k ang = vadd (vscale (cos ang) r) (vscale (sin ang) (cross k r)).
+Proof.
+  intros H. unfold rotate. change (@scal R RS k r) with (dot k r). rewrite H, vect_cross.
+  generalize (cross k r). intros [[m1 m2] m3].
+  destruct r as [[r1 r2] r3], k as [[k1 k2] k3].
+  unfold vsum3, rescale, vadd, vscale, vx, vy, vz. cbn [fst snd scos ssin RS smul ssub sadd s0 s1].
+  apply vec_eq; ring.
+Qed.
+
+Lemma rhp9_as_15 (c h r : rvec) :
+  h <> (0, 0, 0) ->
+  rhp RS (params9 c h r) =
+  rhp RS (params15 c h r (rotate RS r (unit_of h) (PI / 3)) (rotate RS r (unit_of h) (2 * PI / 3))).
+Proof.
+  intros Hh. unfold rhp, params9, params15.
+  cbn [List.length Nat.eqb orb negb firstn skipn vec_of3]. rewrite !vec_eta, (renorm_unit h Hh).
+  cbn [sdiv smul spi sofZ RS]. reflexivity.
+Qed.
+
+Lemma det3_regular (r m h : rvec) :
+  det3 (vscale (2 / 3) (vadd r (vadd (vscale (1 / 2) r) m))) (vsub (vadd (vscale (1 / 2) r) m) r) h
+  = 4 / 3 * det3 r m h.
+Proof.
+  destruct h as [[h1 h2] h3], r as [[r1 r2] r3], m as [[m1 m2] m3].
+  unfold det3, dot, cross, vadd, vsub, vscale, vx, vy, vz; cbn. field.
+Qed.
+
+(* r, m (perpendicular to r and to the axis, |m|^2 = 3/4 |r|^2): the regular
+   hexagon with apothem vector r has its sides on the planes of normals
+   r, s = r/2 + m, t = -r/2 + m through c + r, c + s, c + t *)
+Section Regular.
+  Context (c h r m : rvec).
+  Hypothesis Hh : h <> (0, 0, 0).
+  Hypothesis Hr : r <> (0, 0, 0).
+  Hypothesis Rh : dot r h = 0.
+  Hypothesis Mh : dot m h = 0.
+  Hypothesis Rm : dot r m = 0.
+  Hypothesis MM : dot m m = 3 / 4 * dot r r.
+  Hypothesis Hdet : 0 < det3 r m h.
+
+  Let s : rvec := vadd (vscale (1 / 2) r) m.
+  Let t : rvec := vadd (vscale (- (1 / 2)) r) m.
+  Let w : nat -> rvec := hexagon_of c (vscale (2 / 3) (vadd r s)) (vsub s r) 1.
+
+  Ltac modc := repeat match goal with
+    | |- context [(?a mod 6)%nat] =>
+        let v := eval vm_compute in (a mod 6)%nat in change (a mod 6)%nat with v
+    end.
+
+  Ltac crush := destruct c as [[c1 c2] c3], h as [[h1 h2] h3], r as [[r1 r2] r3], m as [[m1 m2] m3];
+    unfold dot, det3, cross, vadd, vsub, vscale, vx, vy, vz in *; cbn [fst snd] in *.
+
+  Lemma reg_s_nz : s <> (0, 0, 0).
+  Proof.
+    intros Z. assert (E : dot s s = 0) by (rewrite Z; unfold dot, vx, vy, vz; cbn; ring).
+    assert (F : dot s s = dot r r) by (unfold s; crush; lra).
+    pose proof (dot_self_pos r Hr). lra.
+  Qed.
+
+  Lemma reg_t_nz : t <> (0, 0, 0).
+  Proof.
+    intros Z. assert (E : dot t t = 0) by (rewrite Z; unfold dot, vx, vy, vz; cbn; ring).
+    assert (F : dot t t = dot r r) by (unfold t; crush; lra).
+    pose proof (dot_self_pos r Hr). lra.
+  Qed.
+
+  Lemma reg_flat k : dot (vsub (wv w k) c) h = 0.
+  Proof.
+    unfold wv. destruct (mod6_cases k) as (q & Hq & -> & _).
+    unfold w. rewrite hexagon_of_xy.
+    do 6 (destruct q as [|q]; [unfold hex_xy, s; cbn [fst snd]; crush; lra|]). lia.
+  Qed.
+
+  Theorem regular_lattice_vectors :
+    hexLatticeBaseVectors_rhp RS (params15 c h r s t) = Ok [vscale 2 r; vscale 2 s; h].
+  Proof.
+    assert (Hl : In [0; opp 0; 1; opp 1; 2; opp 2]%nat all_listings)
+      by (apply admissible_iff; vm_compute; reflexivity).
+    assert (Hturn : forall k, 0 < det3 (vsub (wv w (k + 1)) (wv w k)) (vsub (wv w (k + 2)) (wv w (k + 1))) h).
+    { intros k. apply hexagon_of_turn; [lra|].
+      pose proof (det3_regular r m h) as E. fold s in E.
+      rewrite E. lra. }
+    rewrite (rhp_lattice_vectors c h r s t w 0 1 2 Hl Hh Hr reg_s_nz reg_t_nz Rh).
+    - f_equal. unfold across, wv, w. modc. cbn [hexagon_of].
+      f_equal; [|f_equal]; unfold s; crush; apply vec_eq; lra.
+    - unfold s. crush. lra.
+    - unfold t. crush. lra.
+    - intros k. apply hexagon_of_sym.
+    - unfold wv, w. modc. cbn [hexagon_of]. unfold s. crush. split; lra.
+    - unfold wv, w. modc. cbn [hexagon_of]. unfold s. crush. split; lra.
+    - unfold wv, w. modc. cbn [hexagon_of]. unfold s, t. crush. split; lra.
+    - exact reg_flat.
+    - left. exact Hturn.
+  Qed.
+End Regular.
+
+Lemma cross_perp_l (k r : rvec) : dot (cross k r) k = 0.
+Proof. destruct k as [[a b] c], r as [[d e] f]. unfold dot, cross, vx, vy, vz; cbn. ring. Qed.
+
+Lemma cross_perp_r (k r : rvec) : dot r (cross k r) = 0.
+Proof. destruct k as [[a b] c], r as [[d e] f]. unfold dot, cross, vx, vy, vz; cbn. ring. Qed.
+
+Lemma lagrange (k r : rvec) :
+  dot (cross k r) (cross k r) = dot k k * dot r r - dot k r * dot k r.
+Proof. destruct k as [[a b] c], r as [[d e] f]. unfold dot, cross, vx, vy, vz; cbn. ring. Qed.
+
+Lemma det3_r_cross (k r : rvec) :
+  det3 r (cross k r) k = dot k k * dot r r - dot k r * dot k r.
+Proof. destruct k as [[a b] c], r as [[d e] f]. unfold det3, dot, cross, vx, vy, vz; cbn. ring. Qed.
+
+Lemma unit_of_unit (h : rvec) : h <> (0, 0, 0) -> dot (unit_of h) (unit_of h) = 1.
+Proof.
+  intros Hh. pose proof (norm_pos h Hh). pose proof (norm_sq h) as Hq.
+  unfold unit_of. rewrite dot_vscale_l, dot_comm, dot_vscale_l, <- Hq. field. lra.
+Qed.
+
+(* a LAT=2 cell "-b", b an RHP/HEX card with nine entries v h r (r perpendicular
+   to h): a1 = 2 r, a2 = 2 s with s = r rotated by 60 degrees about h (the
+   vector the code computes for the second pair of facets), a3 = h *)
+Theorem rhp9_lattice_vectors (c h r : rvec) :
+  h <> (0, 0, 0) -> r <> (0, 0, 0) -> dot r h = 0 ->
+  hexLatticeBaseVectors_rhp RS (params9 c h r) =
+  Ok [vscale 2 r; vscale 2 (rotate RS r (unit_of h) (PI / 3)); h] /\
+  rotate RS r (unit_of h) (PI / 3) =
+  vadd (vscale (1 / 2) r) (vscale (sqrt 3 / 2) (cross (unit_of h) r)).
+Proof.
+  intros Hh Hr Rh. set (k := unit_of h). set (m := vscale (sqrt 3 / 2) (cross k r)).
+  pose proof (norm_pos h Hh) as Hp.
+  assert (Kr : dot k r = 0) by (unfold k, unit_of; rewrite dot_vscale_l, dot_comm, Rh; ring).
+  assert (Es : rotate RS r k (PI / 3) = vadd (vscale (1 / 2) r) m).
+  { rewrite (rotate_perp r k _ Kr), cos_PI3, sin_PI3. reflexivity. }
+  assert (Et : rotate RS r k (2 * PI / 3) = vadd (vscale (- (1 / 2)) r) m).
+  { rewrite (rotate_perp r k _ Kr). replace (2 * PI / 3) with (2 * (PI / 3)) by field.
+    rewrite cos_2PI3, sin_2PI3. unfold m.
+    destruct r as [[r1 r2] r3], (cross k (r1, r2, r3)) as [[m1 m2] m3].
+    unfold vadd, vscale, vx, vy, vz; cbn. apply vec_eq; field. }
+  split; [|exact Es].
+  unfold hexLatticeBaseVectors_rhp, rhp_cell_surfaces, rhp_surfaces.
+  rewrite (rhp9_as_15 c h r Hh). fold k. rewrite Es, Et.
+  assert (S3 : sqrt 3 * sqrt 3 = 3) by (apply sqrt_sqrt; lra).
+  assert (Kk : dot k k = 1) by (apply unit_of_unit; exact Hh).
+  assert (Hk : h = vscale (norm h) k).
+  { unfold k, unit_of. destruct h as [[h1 h2] h3]. unfold vscale, vx, vy, vz; cbn.
+    apply vec_eq; field; lra. }
+  pose proof (regular_lattice_vectors c h r m Hh Hr Rh) as Reg.
+  unfold hexLatticeBaseVectors_rhp, rhp_cell_surfaces, rhp_surfaces in Reg. apply Reg.
+  - assert (Ch : dot (cross k r) h = 0).
+    { transitivity (dot (cross k r) (vscale (norm h) k)); [f_equal; exact Hk|].
+      rewrite dot_comm, dot_vscale_l, dot_comm, cross_perp_l. ring. }
+    unfold m. rewrite dot_vscale_l, Ch. ring.
+  - unfold m. rewrite dot_comm, dot_vscale_l, dot_comm, cross_perp_r. ring.
+  - unfold m. rewrite dot_vscale_l, dot_comm, dot_vscale_l, lagrange, Kk, Kr.
+    replace (sqrt 3 / 2 * (sqrt 3 / 2 * (1 * dot r r - 0 * 0))) with (sqrt 3 * sqrt 3 / 4 * dot r r) by field.
+    rewrite S3. field.
+  - assert (E : det3 r m h = sqrt 3 / 2 * norm h * det3 r (cross k r) k).
+    { transitivity (det3 r m (vscale (norm h) k)); [f_equal; exact Hk|].
+      unfold m. generalize (cross k r) (norm h) (sqrt 3 / 2). intros x nh q. clearbody k.
+      destruct r as [[r1 r2] r3], x as [[x1 x2] x3], k as [[k1 k2] k3].
+      unfold det3, dot, cross, vscale, vx, vy, vz; cbn. ring. }
+    rewrite E, det3_r_cross, Kk, Kr.
+    assert (0 < dot r r) by (apply dot_self_pos; exact Hr).
+    assert (0 < sqrt 3) by (apply sqrt_lt_R0; lra).
+    replace (sqrt 3 / 2 * norm h * (1 * dot r r - 0 * 0)) with (sqrt 3 / 2 * norm h * dot r r) by ring.
+    apply Rmult_lt_0_compat; [apply Rmult_lt_0_compat; lra|assumption].
+Qed.
